@@ -131,9 +131,9 @@ static void body(int argc, char** argv) {
     { auto in = real_inputs<vec3>({ 32767, 32767, 32767 }, true); for (auto& x : in) { i16vec3 p = packSnorm<int16>(x); vec3 u = unpackSnorm<float>(p); Ev("pkT").str("fmt", "TSnorm16").arg(x).res(p).val("u", u).emit(); } }
     { auto in = real_inputs<dvec2>({ 255, 255 }, false); for (auto& x : in) { u8vec2 p = packUnorm<uint8>(x); dvec2 u = unpackUnorm<double>(p); Ev("pkT").str("fmt", "TUnorm8").arg(x).res(p).val("u", u).emit(); } }
     { auto in = real_inputs<dvec3>({ 32767, 32767, 32767 }, true); for (auto& x : in) { i16vec3 p = packSnorm<int16>(x); dvec3 u = unpackSnorm<double>(p); Ev("pkT").str("fmt", "TSnorm16").arg(x).res(p).val("u", u).emit(); } }
-    for (uint64_t c = 0; c < 256; ++c) { u8vec4 p(uint8(c), uint8(255 - c), uint8(c ^ 0x55), uint8(c * 7)); vec4 v = unpackUnorm<float>(p); u8vec4 p2 = packUnorm<uint8>(v); Ev("rtT").str("fmt", "TUnorm8").arg(p).val("v", v).val("p2", p2).emit();
+    for (::uint64_t c = 0; c < 256; ++c) { u8vec4 p(uint8(c), uint8(255 - c), uint8(c ^ 0x55), uint8(c * 7)); vec4 v = unpackUnorm<float>(p); u8vec4 p2 = packUnorm<uint8>(v); Ev("rtT").str("fmt", "TUnorm8").arg(p).val("v", v).val("p2", p2).emit();
         i8vec4 q(int8(c), int8(255 - c), int8(c ^ 0x55), int8(c * 7)); vec4 w = unpackSnorm<float>(q); i8vec4 q2 = packSnorm<int8>(w); Ev("rtT").str("fmt", "TSnorm8").arg(q).val("v", w).val("p2", q2).emit(); }
-    for (uint64_t c = 0; c < 65536; c += (g_thorough ? 1 : 11)) { u16vec2 p(uint16(c), uint16(65535 - c)); vec2 v = unpackUnorm<float>(p); u16vec2 p2 = packUnorm<uint16>(v); Ev("rtT").str("fmt", "TUnorm16").arg(p).val("v", v).val("p2", p2).emit();
+    for (::uint64_t c = 0; c < 65536; c += (g_thorough ? 1 : 11)) { u16vec2 p(uint16(c), uint16(65535 - c)); vec2 v = unpackUnorm<float>(p); u16vec2 p2 = packUnorm<uint16>(v); Ev("rtT").str("fmt", "TUnorm16").arg(p).val("v", v).val("p2", p2).emit();
         i16vec2 q(int16(c), int16(65535 - c)); vec2 w = unpackSnorm<float>(q); i16vec2 q2 = packSnorm<int16>(w); Ev("rtT").str("fmt", "TSnorm16").arg(q).val("v", w).val("p2", q2).emit(); }
     // RGBM
     for (int k = 0; k < (g_thorough ? 20000 : 1500); ++k) { vec3 c(float(rng.below(6001)) / 1000.f, float(rng.below(6001)) / 1000.f, float(rng.below(600)) / 1000.f); if (k % 5 == 0) c = vec3(c.z, c.z, c.z);
